@@ -23,7 +23,16 @@ META = {
     "design_ref": "6 C11",
 }
 
-THEOREMS = ["C11_stub"]
+THEOREMS = [
+    "C11_clean",
+    "C11_clean_plain",
+    "C11_clean_high",
+    "C11_crlf",
+    "C11_tabs",
+    "C11_reader_refines_spec",
+    "C11_reader_inputs",
+    "C11_reader_layout",
+]
 WORKERS = 8
 ALL_FEATS = ["blanks", "newline", "amp", "dollar", "comments", "lead", "trail", "pre"]
 PHYS = ["crlf", "final_blank", "tabs", "blank_ws", "message", "no_final_eol"]
